@@ -15,13 +15,14 @@ LEVEL = 'exploration'
 SHARDS = {'quick': 4, 'thorough': 16}
 TIMEOUT = {'quick': 300, 'thorough': 3000}
 N_SCRIPTS = {'quick': 1200, 'thorough': 100000}
+N_LONG = {'quick': 240, 'thorough': 20000}       # scale regime: 900-1600 timesteps each
 BOX = {'quick': dict(starts=range(-3, 4), ends=range(-2, 7), freqs=range(1, 5), T=22),
        'thorough': dict(starts=range(-6, 7), ends=range(-3, 17), freqs=range(1, 8), T=40)}
 RULE = ('cases: (a) seeded scripts: 1-8 systems with start in [-6,12], frequency in [1,7], end in {default, start-3..start+15} '
         '(so end<start occurs), registered/removed at chunk boundaries during timesteps 0..~60, advanced by a random mix of '
         'execute(), execute(n<=6) and systems.execute_systems(), each replayed one step at a time on a twin model, with '
         'invalid-n probes at random states; (b) clock-warp scripts crossing sys.maxsize; (c) every (start,end,frequency) of '
-        'a box with one system over timesteps 0..T (exhaustive); (d) spawner scripts: a highest-priority system registers/removes '
+        'a box with one system over timesteps 0..T (exhaustive); (e) long runs: 900-1600 timesteps, frequencies up to 200, ends on and around 256/512/768/1024, execute(n) with n up to the whole run, long stretches without registry changes; (d) spawner scripts: a highest-priority system registers/removes '
         'windowed systems in the middle of multi-step calls (the system added at t may run 0/1 times at t). Oracle per (t, system): ran exactly once iff registered and '
         'start<=t<=end and (t-start)%frequency==0. Non-trivial script: contains a window with negative start or end<start or '
         'late registration AND a multi-step call; distinct by (windows, chunking) signature.')
@@ -30,7 +31,7 @@ ASSUMPTIONS = ['systems only log (timestep, id) in execute()', 'clock-warp cases
                'rejecting non-integers and n<1)']
 FLOORS = {'quick': {'decisions_ran': 5000, 'decisions_not_ran': 5000, 'multi_step_calls': 1000, 'rejected_n_value': 300,
                     'rejected_n_type': 300, 'windows_negative_start': 300, 'windows_end_before_start': 100,
-                    'late_registrations': 300, 'warp_cases': 20, 'box_windows': 140, 'collector_windows': 500, 'spawn_cases': 200,
+                    'late_registrations': 300, 'warp_cases': 20, 'box_windows': 140, 'collector_windows': 500, 'long_runs': 120, 'long_run_timesteps': 100000, 'spawn_cases': 200,
                     'mid_step_registry_changes': 1000,
                     'reach:Core.Model.execute': 1000, 'reach:Core.SystemManager.execute_systems': 5000},
           'thorough': {'decisions_ran': 500000, 'decisions_not_ran': 500000, 'multi_step_calls': 100000,
@@ -299,6 +300,76 @@ def case_spawn(ctx, case):
         ctx.sample({'kind': 'spawner script', 'windows': list(wins.values()), 'events': {str(k): v for k, v in script.items()}, 'chunks': chunks})
 
 
+def case_long(ctx, case):
+    """Scale regime: long runs (1000-2000 timesteps), large frequencies, ends on and around powers of two, very long execute(n) calls,
+    long stretches without any registry change - compared step by step with the window predicate and with a single-stepped twin."""
+    rng = ctx.rng('long', case['i'])
+    core, WinSystem = _fixtures()
+    model, twin = core.Model(), core.Model()
+    log, tlog = [], []
+    wins = []
+    for j in range(rng.randint(1, 5)):
+        start = rng.choice([0, 0, rng.randint(-50, 300)])
+        freq = rng.choice([1, 1, 2, 3, rng.randint(4, 40), rng.randint(41, 200)])
+        end = rng.choice([sys.maxsize, 255, 256, 257, 511, 512, 513, 767, 768, 1023, 1024, 1025, start + freq * rng.randint(1, 40),
+                          rng.randint(0, 1500)])
+        if end != sys.maxsize and end >= start and rng.random() < 0.7:
+            end = start + ((end - start) // freq) * freq if rng.random() < 0.5 else end      # often: the system is due exactly at its end
+        wins.append({'id': f'L{j}', 'start': start, 'end': end, 'freq': freq})
+    t_reg = rng.choice([0, 0, 0, rng.randint(1, 300)])      # all systems registered at once, then a long quiet stretch
+    for w in wins:
+        kw = dict(frequency=w['freq'], start=w['start'])
+        if w['end'] != sys.maxsize:
+            kw['end'] = w['end']
+        w['objs'] = (WinSystem(w['id'], model, log, **kw), WinSystem(w['id'], twin, tlog, **kw))
+    total = rng.randint(900, 1600)
+    t = 0
+    if t_reg:
+        model.execute(t_reg)
+        for _ in range(t_reg):
+            twin.execute()
+        t = t_reg
+    for w in wins:
+        model.systems.add_system(w['objs'][0])
+        twin.systems.add_system(w['objs'][1])
+    chunks = []
+    while t < total:
+        n = rng.choice([1, 1, 2, 7, 64, 65, 66, 100, 129, 300, 700, total])
+        n = max(1, min(n, total - t))
+        if n == 1 and rng.random() < 0.5:
+            model.systems.execute_systems()
+        else:
+            model.execute(n)
+        for _ in range(n):
+            twin.execute()
+        chunks.append(n)
+        t += n
+        check_clocks(model, t, f'after execute({n}) in a long run')
+    for name, lg in (('multi-step run', log), ('single-stepped twin', tlog)):
+        got = Counter(e for e in lg)
+        exp = Counter()
+        for w in wins:
+            first = max(w['start'], t_reg)
+            k0 = -(-(first - w['start']) // w['freq'])
+            tt = w['start'] + k0 * w['freq']
+            while tt <= min(w['end'], total - 1):
+                exp[(tt, w['id'])] += 1
+                tt += w['freq']
+        ctx.ev(len(exp) + 1)
+        if got != exp:
+            miss, extra = sorted((exp - got).elements()), sorted((got - exp).elements())
+            raise CaseViolation(f'{name} over {total} timesteps: executions differ from the window predicate',
+                                missing=miss[:10], extra=extra[:10], windows=[{k: v for k, v in w.items() if k != 'objs'} for w in wins],
+                                registered_at=t_reg, chunks=chunks[:40])
+    check(log == tlog, 'long execute(n) calls are not equivalent to single steps', chunks=chunks[:40])
+    ctx.count('long_runs')
+    ctx.count('long_run_timesteps', total)
+    ctx.count('decisions_ran', len(log))
+    ctx.distinct(('long', tuple((w['start'], w['end'], w['freq']) for w in wins), t_reg, tuple(chunks[:20])))
+    if case['i'] < 1:
+        ctx.sample({'kind': 'long run', 'timesteps': total, 'windows': [{k: v for k, v in w.items() if k != 'objs'} for w in wins], 'chunks': chunks[:12]})
+
+
 def case_warp(ctx, case):
     """Cross the default end (sys.maxsize): t = maxsize runs, maxsize+1 does not."""
     rng = ctx.rng('warp', case['i'])
@@ -351,7 +422,7 @@ def case_box(ctx, case):
 
 
 def run_case(ctx, case):
-    {'script': case_script, 'warp': case_warp, 'box': case_box, 'spawn': case_spawn}[case['kind']](ctx, case)
+    {'script': case_script, 'warp': case_warp, 'box': case_box, 'spawn': case_spawn, 'long': case_long}[case['kind']](ctx, case)
 
 
 def run(ctx):
@@ -372,6 +443,9 @@ def run(ctx):
     for i in range(N_SCRIPTS[ctx.tier] // 3):
         if ctx.mine(i) and not ctx.full():
             ctx.run_case({'kind': 'spawn', 'i': i}, run_case)
+    for i in range(N_LONG[ctx.tier]):
+        if ctx.mine(i) and not ctx.full():
+            ctx.run_case({'kind': 'long', 'i': i}, run_case)
     ctx.sample({'kind': 'box', 'starts': [b['starts'][0], b['starts'][-1]], 'ends_rel_start': [b['ends'][0], b['ends'][-1], 'forever'],
                 'freqs': [b['freqs'][0], b['freqs'][-1]], 'T': b['T']})
 
